@@ -88,7 +88,7 @@ Mix ==
                              "SetObjective", "SetObjCoef", "SetDirection", "SetMedium", "GetMedium", "SwitchSolver",
                              "AddUserCons", "AddUserVar", "RemoveUserCons", "RemoveUserVar", "AddGroup", "RemoveGroup",
                              "GroupAddMembers", "GroupRemoveMembers",
-                             "Copy", "Enter", "Exit", "RoundTrip", "DetachedSetBounds", "RxnArith", "Merge", "SaveDoc", "LoadDoc", "BuildFromString", "BuildFromString",
+                             "Copy", "Enter", "Exit", "RoundTrip", "DetachedSetBounds", "DetachedRename", "DetachedRename", "ReAddDetached", "RxnArith", "Merge", "SaveDoc", "LoadDoc", "BuildFromString", "BuildFromString",
                              "SetFunctional", "Repair", "ReAddDetached", "ReAddDetached", "AddArith", "FixObjective", "SetAttr", "SetTolerance">>
     [] Profile = "ctx" -> <<"Enter", "Enter", "Enter", "Exit", "Exit", "Exit", "AddReactions", "RemoveReactions",
                             "RemoveReactions", "AddMetabolites", "RemoveMetabolites", "AddBoundary", "RxnAddMetabolites",
@@ -171,7 +171,7 @@ DrawOp(r, S) ==
          base @@ [met |-> m, type |-> IF m \in ExtMets THEN (IF d[8] % 4 = 0 THEN "sink" ELSE "exchange")
                                        ELSE Pick(<<"demand", "sink", "exchange">>, d[8])]
     [] k \in {"RxnAddMetabolites", "RxnSubtractMetabolites"} ->
-         base @@ [r |-> rx, d |-> DrawD(C, SubSeq(d, 8, 12)), combine |-> d[13] % 3 # 0, form |-> d[14] % 3]
+         base @@ [r |-> rx, d |-> DrawD(C, SubSeq(d, 8, 12)), combine |-> d[13] % 3 # 0, form |-> d[14] % 4]
     [] k = "RxnIMul" -> base @@ [r |-> rx, k |-> Pick(<<2, -1, 3, -2, 7>>, d[8])]
     [] k \in {"RxnIAdd", "RxnISub"} -> base @@ [r |-> rx, q |-> rx2]
     [] k = "SetLB" -> base @@ [r |-> rx, v |-> Pick(LoVals, d[8])]
@@ -186,6 +186,7 @@ DrawOp(r, S) ==
     [] k = "FixObjective" -> base
     [] k = "RxnArith" -> base @@ [r |-> rx, q |-> rx2, kind |-> Pick(<<"copy", "add", "sub", "mul">>, d[8]), k |-> Pick(<<2, -1, 3, -2>>, d[9])]
     [] k = "ReAddDetached" -> base @@ [r |-> PickPresent(RxSeq, RxU \ C.rxns, d[3])]
+    [] k = "DetachedRename" -> base @@ [r |-> PickPresent(RxSeq, RxU \ C.rxns, d[3]), new |-> PickPresent(RxSeq, RxU \ C.rxns, d[8])]
     [] k = "DetachedSetBounds" -> base @@ [r |-> PickPresent(RxSeq, RxU \ C.rxns, d[3]), lo |-> Pick(LoVals, d[8]), hi |-> Pick(HiVals, d[9])]
     [] k = "SetRule" -> base @@ [r |-> rx, rule |-> Pick(RuleU, d[8]), form |-> d[9] % 2]
     [] k = "GeneKnockOut" -> base @@ [g |-> gn]
@@ -270,6 +271,10 @@ CopyOps ==
    [a |-> "Annotate", s |-> 2, x |-> "g1", v |-> 2, via |-> 0],
    [a |-> "Annotate", s |-> 1, x |-> "m1", v |-> 3, via |-> 2],
    [a |-> "SetTolerance", s |-> 1, k |-> 9],
+   \* a reaction of the copy is given a metabolite OBJECT of the original whose id the copy has lost
+   [a |-> "RemoveMetabolites", s |-> 2, ms |-> <<"m3">>, destructive |-> FALSE, form |-> 0],
+   [a |-> "RxnAddMetabolites", s |-> 2, r |-> "r1", d |-> D1("m3", 1), combine |-> TRUE, form |-> 3],
+   [a |-> "SetAttr", s |-> 2, x |-> "m3", field |-> "charge", v |-> 2],
    [a |-> "Copy", s |-> 1, t |-> 2, kind |-> "deepcopy"],
    [a |-> "SetBounds", s |-> 2, r |-> "r1", lo |-> -5, hi |-> 5],
    [a |-> "RxnIMul", s |-> 2, r |-> "r2", k |-> -1],
@@ -294,6 +299,9 @@ DetOps ==
    [a |-> "RemoveReactions", s |-> 1, rs |-> <<"r1">>, orphans |-> FALSE, form |-> 1],
    [a |-> "ReAddDetached", s |-> 1, r |-> "r1"],
    [a |-> "DetachedSetBounds", s |-> 1, r |-> "r1", lo |-> 0, hi |-> 5],
+   [a |-> "DetachedRename", s |-> 1, r |-> "r1", new |-> "r4"],
+   [a |-> "ReAddDetached", s |-> 1, r |-> "r4"],
+   [a |-> "Copy", s |-> 1, t |-> 2, kind |-> "pickle"],
    [a |-> "RemoveGenes", s |-> 1, gs |-> <<"g1">>, rr |-> FALSE, form |-> 0],
    [a |-> "RemoveMetabolites", s |-> 1, ms |-> <<"m1">>, destructive |-> FALSE, form |-> 0],
    [a |-> "Enter", s |-> 1], [a |-> "Exit", s |-> 1]}
@@ -308,6 +316,16 @@ KoOps ==
         [a |-> "RenameGene", s |-> 1, g |-> "g2", new |-> "g4", more |-> <<>>],
         [a |-> "SetRule", s |-> 1, r |-> "r3", rule |-> And2(G("g2"), G("g3")), form |-> 0],
         [a |-> "Enter", s |-> 1], [a |-> "Exit", s |-> 1]}
+\* the same outside any context: a reaction object leaves the model, is renamed / edited, comes back (or a
+\* new reaction takes the identifier it gave up), the model is pickled
+Det0Ops ==
+  {[a |-> "RemoveReactions", s |-> 1, rs |-> <<"r1">>, orphans |-> FALSE, form |-> 1],
+   [a |-> "DetachedRename", s |-> 1, r |-> "r1", new |-> "r4"],
+   [a |-> "DetachedSetBounds", s |-> 1, r |-> "r1", lo |-> 0, hi |-> 5],
+   [a |-> "ReAddDetached", s |-> 1, r |-> "r4"],
+   [a |-> "ReAddDetached", s |-> 1, r |-> "r1"],
+   [a |-> "AddReactions", s |-> 1, shape |-> 1, specs |-> <<Spec("r1", St1("m1", -1, "m2", 1), -5, 5, G("g2"))>>],
+   [a |-> "Copy", s |-> 1, t |-> 2, kind |-> "pickle"]}
 FullOps ==
   IF FullSet = "mid" THEN
      BoundOps \cup {
@@ -326,6 +344,7 @@ FullOps ==
   IF FullSet = "analyze" THEN AnalyzeOps ELSE
   IF FullSet = "det" THEN DetOps ELSE
   IF FullSet = "ko" THEN KoOps ELSE
+  IF FullSet = "det0" THEN Det0Ops ELSE
   IF FullSet = "copy" THEN CopyOps ELSE
   IF FullSet = "io" THEN IoOps ELSE
   IF FullSet = "bounds" THEN BoundOps ELSE
@@ -363,7 +382,7 @@ FullOps ==
 FullPrefix == IF FullSet = "copy" THEN SeedOps(2, "glpk") \o <<[a |-> "Enter", s |-> 1],
                                                               [a |-> "Copy", s |-> 1, t |-> 2, kind |-> "copy"]>> ELSE
               IF FullSet = "io" THEN SeedOps(1, "glpk") \o <<[a |-> "RoundTrip", s |-> 1, fmt |-> "json"]>> ELSE
-              IF FullSet \in {"analyze", "ko"} THEN SeedOps(1, "glpk")
+              IF FullSet \in {"analyze", "ko", "det0"} THEN SeedOps(1, "glpk")
               ELSE SeedOps(1, "glpk") \o <<[a |-> "Enter", s |-> 1]>>
 
 Init ==
